@@ -110,6 +110,9 @@ pub struct World {
     pub trav: TravCfg,
     pub state: StateCfg,
     pub access: AccessCfg,
+    /// how the access model is configured: 0 plain, 1 combined [m], 2 combined [m, none], 3 combined [none, m],
+    /// 4 combined [0.3 m, 0.7 m] (the delay table dealt out to two turn-delay models). all five mean the same
+    pub access_wrap: u8,
     pub cost: CostCfg,
     pub frontier: FrontierCfg,
     pub term: TermCfg,
@@ -192,6 +195,19 @@ impl World {
     }
 
     pub fn access_model(&self) -> Arc<dyn AccessModel> {
+        use routee_compass_core::model::access::default::combined_model::CombinedAccessModel;
+        let none = || -> Arc<dyn AccessModel> { Arc::new(NoAccessModel {}) };
+        match self.access_wrap {
+            1 => Arc::new(CombinedAccessModel { models: vec![self.access_model_scaled(1.0)] }),
+            2 => Arc::new(CombinedAccessModel { models: vec![self.access_model_scaled(1.0), none()] }),
+            3 => Arc::new(CombinedAccessModel { models: vec![none(), self.access_model_scaled(1.0)] }),
+            4 => Arc::new(CombinedAccessModel { models: vec![self.access_model_scaled(0.3), self.access_model_scaled(0.7)] }),
+            _ => self.access_model_scaled(1.0),
+        }
+    }
+
+    /// the configured access model with its delay table multiplied by `share`
+    pub fn access_model_scaled(&self, share: f64) -> Arc<dyn AccessModel> {
         match &self.access {
             AccessCfg::None => Arc::new(NoAccessModel {}),
             AccessCfg::TurnDelay { headings, table, unit } => {
@@ -204,7 +220,7 @@ impl World {
                     .collect();
                 let mut t = HashMap::new();
                 for (i, name) in TURNS.iter().enumerate() {
-                    t.insert(turn_of(name), Time::new(table[i]));
+                    t.insert(turn_of(name), Time::new(table[i] * share));
                 }
                 let engine = TurnDelayAccessModelEngine {
                     edge_headings: hs.into_boxed_slice(),
@@ -517,11 +533,13 @@ pub fn gen_world_on(rng: &mut Rng, p: &WorldParams, net: RefNet) -> World {
         let f = if speed && rng.chance(0.5) { "time" } else { "distance" };
         edge_surcharge.push((f.to_string(), t));
     }
+    let access_wrap = if rng.chance(0.35) { rng.urange(1, 4) as u8 } else { 0 };
     World {
         net,
         trav,
         state,
         access,
+        access_wrap,
         cost: CostCfg { weights, vehicle_rates: rates, edge_surcharge, turn_surcharge: vec![], agg: CostAggregation::Sum },
         frontier: FrontierCfg::None,
         term: TermCfg::None,
